@@ -76,6 +76,8 @@ PARTIAL = ["codon-wise mutation list (--aa): proved are the error condition (= t
            "(relative) of the model's (last place of math.Log); pseudo-counts a float64 does not hold exactly are not decided",
            "the model is stated for ASCII residues: CharStats / InformativeSites index 130-entry slices with unicode.ToUpper(rune) "
            "(bytes >= 130 panic in Go; only NumMutationsUniquePerSequence models that panic explicitly)",
+           "command line `diff` with --counts / --no-gaps / --reverse: the table printed from the CountDifferences model (pairs sorted, gap pairs "
+           "left out with --no-gaps, one line per row but the first), ReplaceMatchChars / DiffWithFirst otherwise, byte for byte",
            "CountDifferences on an alignment without sequences and CountProfile.CountsAt(len) were run-time panics: repaired "
            "(fix: commits), the models follow the repaired code (countDifferences_empty, profileCountsAt_error_iff)"]
 
